@@ -68,6 +68,16 @@ func (o Op) String() string {
 			return fmt.Sprintf("h%d.ParseFS(TrustedFS{})", o.H)
 		} else if o.Arg == 2 {
 			return fmt.Sprintf("h%d.ParseFS(TrustedFS{}.Sub(x))", o.H)
+		} else if o.Arg > 2 {
+			return fmt.Sprintf("h%d.ParseFS(fs, %s)", o.H, [...]string{"", "", "", "", `"a.tmpl", "*.none"`, `"bad/root"`, `"["`}[o.Arg])
+		}
+	case ParseFiles:
+		if o.Arg > 0 {
+			return fmt.Sprintf("h%d.ParseFiles(%s)", o.H, [...]string{"", "", `"bad/root"`, `"a.tmpl", "none.tmpl"`}[o.Arg])
+		}
+	case ParseGlob:
+		if o.Arg > 0 {
+			return fmt.Sprintf("h%d.ParseGlob(%s)", o.H, [...]string{"", `"*.none"`, `"["`, `"bad/r*"`}[o.Arg])
 		}
 	}
 	return fmt.Sprintf("h%d.%s()", o.H, kindNames[o.Kind])
@@ -190,10 +200,30 @@ func (w *world) apply(o Op) (obs Obs) {
 		_, err := t.ParseFromTrustedTemplate(tuc.TrustedTemplateFromStringKnownToSatisfyTypeContract(w.sc.Texts[o.Arg]))
 		seterr(err)
 	case ParseFiles:
-		_, err := t.ParseFiles("fixtures/hist/a.tmpl", "fixtures/hist/b.tmpl")
+		var err error
+		switch o.Arg {
+		case 1: // no file names at all
+			_, err = t.ParseFiles()
+		case 2: // a file with a syntax error whose base name is the name of the root template
+			_, err = t.ParseFiles("fixtures/hist/bad/root")
+		case 3: // a file that does not exist, after one that does
+			_, err = t.ParseFiles("fixtures/hist/a.tmpl", "fixtures/hist/none.tmpl")
+		default:
+			_, err = t.ParseFiles("fixtures/hist/a.tmpl", "fixtures/hist/b.tmpl")
+		}
 		seterr(err)
 	case ParseGlob:
-		_, err := t.ParseGlob("fixtures/hist/*.tmpl")
+		var err error
+		switch o.Arg {
+		case 1: // matches nothing
+			_, err = t.ParseGlob("fixtures/hist/*.none")
+		case 2: // malformed pattern
+			_, err = t.ParseGlob("fixtures/hist/[")
+		case 3: // matches the file with the syntax error
+			_, err = t.ParseGlob("fixtures/hist/bad/r*")
+		default:
+			_, err = t.ParseGlob("fixtures/hist/*.tmpl")
+		}
 		seterr(err)
 	case ParseFS:
 		tfs := template.TrustedFSFromTrustedSource(template.TrustedSourceFromConstant("fixtures/hist"))
@@ -203,7 +233,19 @@ func (w *world) apply(o Op) (obs Obs) {
 		case 2:
 			tfs, _ = template.TrustedFS{}.Sub(template.TrustedSourceFromConstant("x"))
 		}
-		_, err := t.ParseFS(tfs, "*.tmpl")
+		var err error
+		switch o.Arg {
+		case 3: // no patterns at all
+			_, err = t.ParseFS(tfs)
+		case 4: // a pattern that matches nothing, after one that matches
+			_, err = t.ParseFS(tfs, "a.tmpl", "*.none")
+		case 5: // matches the file with the syntax error
+			_, err = t.ParseFS(tfs, "bad/root")
+		case 6: // malformed pattern
+			_, err = t.ParseFS(tfs, "[")
+		default:
+			_, err = t.ParseFS(tfs, "*.tmpl")
+		}
 		seterr(err)
 	case Templates:
 		var names []string
